@@ -4,11 +4,9 @@
 
   A variable is its index (`crab::variable::operator<` / `==` compare `index()` only,
   include/crab/types/variable.hpp).  The coefficient map is a `boost::container::flat_map`
-  ordered by variable: here the list of its entries in iteration order.  Nothing in the class
-  removes an entry whose coefficient is zero once it is there, and the constructor
-  `linear_expression(Number n, variable_t x)` stores `n` as given (also `0`), so the entries are
-  kept exactly as the code keeps them; `Expr.Canonical` is the intended invariant
-  (strictly increasing variables, no zero coefficient).
+  ordered by variable: here the list of its entries in iteration order, kept exactly as the code
+  keeps them.  `Expr.Canonical` is the invariant of the class (strictly increasing variables, no
+  zero coefficient): every constructor and operator establishes or preserves it.
 -/
 namespace Crab
 namespace Lin
@@ -48,8 +46,8 @@ def const (n : Int) : Expr := ⟨[], n⟩
 /-- `linear_expression(variable_t x)` -/
 def var (x : Var) : Expr := ⟨[(x, 1)], 0⟩
 /-- `linear_expression(Number n, variable_t x)`, also reached by `n * x` / `x * n`:
-    the entry is inserted whatever `n` is -/
-def term (n : Int) (x : Var) : Expr := ⟨[(x, n)], 0⟩
+    the entry is inserted only `if (n != 0)` -/
+def term (n : Int) (x : Var) : Expr := if n = 0 then ⟨[], 0⟩ else ⟨[(x, n)], 0⟩
 
 /-! ### accessors -/
 
